@@ -51,6 +51,24 @@ let cs s = coq_string s 0
 let ocaml_char (Ascii.Ascii (b0,b1,b2,b3,b4,b5,b6,b7)) =
   let v b i = if b then 1 lsl i else 0 in Char.chr (v b0 0 + v b1 1 + v b2 2 + v b3 3 + v b4 4 + v b5 5 + v b6 6 + v b7 7)
 let rec os = function String.EmptyString -> "" | String.String (c, t) -> S.make 1 (ocaml_char c) ^ os t
+let g_n_of_int i = if i = 0 then BinNums.N0 else BinNums.Npos (pos_of_int i)
+let g_int_of_n = function BinNums.N0 -> 0 | BinNums.Npos p -> int_of_pos p
+let g_z_of_string s = let neg = S.length s > 0 && (S.get s 0) = '-' in let d = if neg then S.sub s 1 (S.length s - 1) else s in
+  let acc = ref BinNums.Z0 in
+  S.iter (fun ch -> let dg = Char.code ch - 48 in
+            acc := BinInt.Z.add (BinInt.Z.mul !acc (BinNums.Zpos (pos_of_int 10))) (if dg = 0 then BinNums.Z0 else BinNums.Zpos (pos_of_int dg))) d;
+  if neg then BinInt.Z.opp !acc else !acc
+let g_cps x = if x = "" || x = "-" then [] else L.map (fun c -> g_n_of_int (int_of_string c)) (S.split_on_char ',' x)
+let g_show_cps l = if l = [] then "-" else ints (L.map g_int_of_n l)
+let g_float v = match S.split_on_char ':' v with
+  | ["x"] -> None
+  | ["f"; k; num; den; r] ->
+    let kind = (match k with "p" -> SimpleType.FPlain | "e" -> SimpleType.FExp | "n" -> SimpleType.FNan | _ -> SimpleType.FInf) in
+    let zden = (match g_z_of_string den with BinNums.Zpos p -> p | _ -> BinNums.Coq_xH) in
+    Some (SimpleType.VFloat (kind, { QArith_base.coq_Qnum = g_z_of_string num; QArith_base.coq_Qden = zden }, g_cps r))
+  | _ -> failwith "bad float"
+let rec g_string_of_cps l = match l with [] -> String.EmptyString | c :: t -> String.String (coq_ascii (Char.chr (g_int_of_n c)), g_string_of_cps t)
+let rec g_cps_of_string = function String.EmptyString -> [] | String.String (c, t) -> g_n_of_int (Char.code (ocaml_char c)) :: g_cps_of_string t
 let () =
   let tfile = Sys.argv.(1) in
   let ic = open_in tfile in
@@ -194,6 +212,38 @@ let () =
              | Some d' ->
                let rec show (Doc.XNode (t, k)) = string_of_int (int_of_pos t) ^ " ( " ^ S.concat "" (L.map (fun x -> show x ^ " ") k) ^ ")" in
                print_endline (show d'))))
+    | "vdoc" :: nf :: toks ->
+      (* vdoc <n> {<text cps> <x | f:k:num:den:repr cps>}*n <tree>;  tree := <tag> <text cps> <nattrs> {<name cps> <value cps>}* ( tree* )
+         answer: NOMACHINE <tag> | <premise bit> NOPARSE | <premise bit> NOEMIT | <premise bit> OK <tree> *)
+      let st = ref toks in
+      let next () = match !st with [] -> failwith "eof" | h :: t -> st := t; h in
+      let peek () = match !st with [] -> "" | h :: _ -> h in
+      let rec ftab n = if n = 0 then [] else let k = g_cps (next ()) in let v = g_float (next ()) in (k, v) :: ftab (n-1) in
+      let ft = ftab (int_of_string nf) in
+      let rec pdoc () =
+        let tag = int_of_string (next ()) in
+        let text = g_cps (next ()) in
+        let na = int_of_string (next ()) in
+        let rec attrs n = if n = 0 then [] else let k = g_string_of_cps (g_cps (next ())) in let v = g_cps (next ()) in (k, v) :: attrs (n-1) in
+        let al = attrs na in
+        if next () <> "(" then failwith "expected (";
+        let rec kids () = if peek () = ")" then (ignore (next ()); []) else let k = pdoc () in k :: kids () in
+        PDoc.PNode (pos_of_int tag, (text, al), kids ()) in
+      let d = pdoc () in
+      let rec tags (PDoc.PNode (t, _, k)) = t :: L.concat (L.map tags k) in
+      (match L.find_opt (fun t -> DocTables.elem_tpl t = None) (tags d) with
+       | Some t -> print_endline ("NOMACHINE " ^ string_of_int (int_of_pos t))
+       | None ->
+         let prem = if DocValTables.vvalidb d then "1 " else "0 " in
+         (match DocValTables.vrun ft d with
+          | DocValTables.VNoParse -> print_endline (prem ^ "NOPARSE")
+          | DocValTables.VNoEmit -> print_endline (prem ^ "NOEMIT")
+          | DocValTables.VOk d' ->
+            let rec show (PDoc.PNode (t, (text, al), k)) =
+              string_of_int (int_of_pos t) ^ " " ^ g_show_cps text ^ " " ^ string_of_int (L.length al) ^ " "
+              ^ S.concat "" (L.map (fun (a, v) -> g_show_cps (g_cps_of_string a) ^ " " ^ g_show_cps v ^ " ") al)
+              ^ "( " ^ S.concat "" (L.map (fun x -> show x ^ " ") k) ^ ")" in
+            print_endline (prem ^ "OK " ^ show d')))
     | "cho" :: t :: ops ->
       let p = templates.(int_of_string t) in
       (match ChoiceClass.slots_of p with
